@@ -219,7 +219,7 @@ def scan_items(src, m, a, b):
         it = Item(kind, name, start, end, attr_start, src, m)
         it.body_open = body_open
         attrs = src[attr_start:start]
-        if re.search(r'#\[cfg\(test\)\]', attrs):
+        if re.search(r'#\[cfg\((test|masscanned_verif)\)\]', attrs):
             it.is_test = True
         if kind in ('impl', 'trait', 'mod') and body_open is not None:
             it.children = scan_items(src, m, body_open + 1, end - 1)
